@@ -20,7 +20,7 @@ def st(flavour, engine, cases, ops=60, shards=8, timeout=900, **extra):
     return d
 
 
-def world(qcases=4000, tcases=800000, miri=True, asan=True):
+def world(qcases=40000, tcases=800000, miri=True, asan=True):
     quick = [st("dbg", "world", qcases, 80, 8), st("rel", "world", qcases, 80, 8)]
     thorough = [
         st("dbg", "world", tcases, 80, 16, 3000),
@@ -38,7 +38,7 @@ def script(engine, path, args, timeout=3000):
     return {"flavour": "script", "engine": engine, "script": path, "args": args, "cases": 0, "timeout": timeout}
 
 
-def storage(prop, qcases=24000, tcases=2400000, miri_q=False):
+def storage(prop, qcases=96000, tcases=2400000, miri_q=False):
     quick = [st("dbg", "storage", qcases, 70, 8), st("rel", "storage", qcases, 70, 8)]
     if miri_q:
         quick.append(st("miri", "storage", 17, 18, 17, 900, small=1, lite=6))
@@ -69,13 +69,13 @@ PLANS = {
     "C04": only_storage("C04", miri_q=True),
     "C05": world(),
     "C06": {
-        "quick": [st("dbg", "join", 1600, 12, 16), st("rel", "join", 1600, 12, 16)],
+        "quick": [st("dbg", "join", 32000, 12, 16), st("rel", "join", 32000, 12, 16)],
         "thorough": [st("dbg", "join", 160000, 14, 16, 3000), st("rel", "join", 320000, 14, 16, 3000),
                      st("rel", "join", 1600, 10, 16, 3000, far=1), st("asan", "join", 16000, 12, 16, 3000),
                      st("miri", "join", 16, 4, 16, 3000, small=1)],
     },
     "C07": {
-        "quick": [st("dbg", "parjoin", 800, 8, 8), st("rel", "parjoin", 800, 8, 8)],
+        "quick": [st("dbg", "parjoin", 1600, 8, 8), st("rel", "parjoin", 1600, 8, 8)],
         "thorough": [st("dbg", "parjoin", 20000, 8, 8, 3000), st("rel", "parjoin", 40000, 8, 8, 3000),
                      st("tsan", "parjoin", 1600, 6, 8, 3000, max_pool=16),
                      st("miri", "parjoin", 16, 3, 16, 3000, small=1, max_pool=3, miri_ignore_leaks=True)],
@@ -84,7 +84,7 @@ PLANS = {
     "C12": only_storage("C12"),
     "C09": world(),
     "C10": {
-        "quick": [st("dbg", "conc", 24000, 6, 8, mode="controlled"), st("rel", "conc", 1600, 300, 8, mode="stress"),
+        "quick": [st("dbg", "conc", 72000, 6, 8, mode="controlled"), st("rel", "conc", 1600, 300, 8, mode="stress"),
                   st("dbg", "conc", 30, 6, 10, mode="enumerate")],
         "thorough": [st("dbg", "conc", 800000, 6, 16, 3000, mode="controlled"), st("rel", "conc", 800000, 6, 16, 3000, mode="controlled"),
                      st("rel", "conc", 60000, 400, 8, 3000, mode="stress", max_threads=16),
@@ -99,34 +99,34 @@ PLANS = {
     },
     "C13": only_storage("C13"),
     "C14": {
-        "quick": [st("dbg", "saveload", 12000, 60, 8), st("rel", "saveload", 12000, 60, 8)],
+        "quick": [st("dbg", "saveload", 60000, 60, 8), st("rel", "saveload", 60000, 60, 8)],
         "thorough": [st("dbg", "saveload", 800000, 60, 16, 3000), st("rel", "saveload", 800000, 60, 16, 3000)],
     },
     "C15": {
-        "quick": [st("dbg", "saveload", 12000, 60, 8), st("rel", "saveload", 12000, 60, 8)],
+        "quick": [st("dbg", "saveload", 60000, 60, 8), st("rel", "saveload", 60000, 60, 8)],
         "thorough": [st("dbg", "saveload", 600000, 60, 16, 3000), st("rel", "saveload", 300000, 200, 16, 3000)],
     },
     "C16": {
-        "quick": [st("dbg", "changeset", 16000, 14, 8), st("rel", "changeset", 16000, 14, 8)],
+        "quick": [st("dbg", "changeset", 80000, 14, 8), st("rel", "changeset", 80000, 14, 8)],
         "thorough": [st("dbg", "changeset", 1600000, 16, 16, 3000), st("rel", "changeset", 1600000, 16, 16, 3000),
                      st("asan", "changeset", 160000, 14, 16, 3000), st("miri", "changeset", 48, 8, 16, 3000, small=1)],
     },
     "C17": world(miri=False, asan=False),
     "C19": {
-        "quick": [st("dbg", "panicdrop", 3264, 12, 8), st("rel", "panicdrop", 3264, 12, 8),
+        "quick": [st("dbg", "panicdrop", 1632 * 20, 12, 8), st("rel", "panicdrop", 1632 * 20, 12, 8),
                   st("miri", "panicdrop", 34, 3, 17, 900)],
         "thorough": [st("dbg", "panicdrop", 1632 * 160, 12, 16, 3000), st("rel", "panicdrop", 1632 * 160, 12, 16, 3000),
                      st("rel", "panicdrop", 1632 * 40, 12, 16, 3000, big=1), st("asan", "panicdrop", 1632 * 8, 12, 16, 3000, asan_leaks=0),
                      st("miri", "panicdrop", 187 * 2, 4, 17, 3000)],
     },
     "C20": {
-        "quick": [st("dbg", "det", 2400, 60, 4, compare="x"), st("dbg", "det", 2400, 60, 4, compare="x"),
-                  st("rel", "det", 2400, 60, 4, compare="x"), st("rel", "det", 2400, 60, 4, compare="x")],
+        "quick": [st("dbg", "det", 24000, 60, 4, compare="x"), st("dbg", "det", 24000, 60, 4, compare="x"),
+                  st("rel", "det", 24000, 60, 4, compare="x"), st("rel", "det", 24000, 60, 4, compare="x")],
         "thorough": [st(f, "det", 320000, 80, 8, 3000, compare="x") for f in ("dbg", "dbg", "dbg", "dbg", "rel", "rel", "rel", "rel")]
                     + [st("asan", "det", 8000, 80, 8, 3000, compare="y"), st("dbg", "det", 8000, 80, 8, 3000, compare="y")],
     },
     "C18": {
-        "quick": [script("derivegen", "derivegen/derivegen.py", ["--types", 60, "--values", 200, "--batches", 2])],
+        "quick": [script("derivegen", "derivegen/derivegen.py", ["--types", 150, "--values", 200, "--batches", 3])],
         "thorough": [script("derivegen", "derivegen/derivegen.py", ["--types", 1500, "--values", 2000, "--batches", 10,
                                                                     "--formats", "json,ron", "--markers", 2])],
     },
@@ -191,11 +191,11 @@ for _p in list(RULES):
 # a destructor panic must not make a value be destroyed twice (C08) nor lose a Removed event (C12):
 # the fault-enumeration engine also runs under these properties' checks
 for _p in ("C08", "C12"):
-    PLANS[_p]["quick"].append(st("dbg", "panicdrop", 3264, 12, 8))
+    PLANS[_p]["quick"].append(st("dbg", "panicdrop", 1632 * 10, 12, 8))
     PLANS[_p]["thorough"].append(st("rel", "panicdrop", 1632 * 20, 12, 16, 3000))
 
 # C16 across a caught destructor panic inside ChangeSet::clear / drop / by-value join
-PLANS["C16"]["quick"].append(st("dbg", "panicdrop", 1632, 12, 8, only_op="changeset"))
+PLANS["C16"]["quick"].append(st("dbg", "panicdrop", 1632 * 10, 12, 8, only_op="changeset"))
 PLANS["C16"]["thorough"].append(st("rel", "panicdrop", 1632 * 20, 12, 16, 3000, only_op="changeset"))
 # C17 under concurrent creation: a fresh index only once the free list is exhausted
 PLANS["C17"]["quick"].append(st("rel", "conc", 1200, 300, 8, mode="stress"))
@@ -210,7 +210,7 @@ PLANS["C01"]["thorough"].append(st("rel", "conc", 40000, 400, 8, 3000, mode="str
 PLANS["C01"]["thorough"].append(st("dbg", "conc", 400000, 6, 16, 3000, mode="controlled"))
 
 # C04: an insertion whose default-filler construction panics must leave the map unchanged
-PLANS["C04"]["quick"].append(st("dbg", "panicdrop", 1632, 12, 8, only_op="insert_with_panicking_default+clear"))
+PLANS["C04"]["quick"].append(st("dbg", "panicdrop", 1632 * 10, 12, 8, only_op="insert_with_panicking_default+clear"))
 PLANS["C04"]["thorough"].append(st("rel", "panicdrop", 1632 * 20, 12, 16, 3000, only_op="insert_with_panicking_default+clear"))
 
 # C20 over the histories of the world and storage engines (every creation / deletion path, lazy updates,
